@@ -70,8 +70,11 @@ def run(ctx):
     # ---- hostile inputs
     inputs = []   # (tag, bytes)
     deep = W.deep_inputs((100, 1000, 4000) if ctx.thorough else (100, 1000))
-    for name, src in deep:
-        inputs.append(("deep:" + name, src.encode()))
+    # large-but-valid programs and call cycles run one per process as well (generous budget, not the output budget)
+    nold = len(deep)
+    deep = deep + W.big_valid_inputs() + W.recursive_inputs()
+    for k, (name, src) in enumerate(deep):
+        inputs.append((("deep:" if k < nold else "big:") + name, src.encode()))
     toks = lexcorr.tokens_impl(tools, [c[1].encode("utf-8", "surrogateescape") for c in corpus])
     lexed = []
     for (name, src), t in zip(corpus, toks):
@@ -137,7 +140,7 @@ def run(ctx):
     # deep inputs: one process each (a slow one must not take a batch down), generous CPU budget:
     # output size is legitimately quadratic in nesting depth (indentation)
     ndeep = len(deep)
-    res = nagarun.parallel_batches(tools["nagadrive"], "compile", jobs[:ndeep], per_job_timeout=(600.0 if ctx.thorough else 120.0),
+    res = nagarun.parallel_batches(tools["nagadrive"], "compile", jobs[:ndeep], per_job_timeout=(600.0 if ctx.thorough else 60.0),
                                    chunk=1, workers=vcheck.NCPU)
     res.update(nagarun.parallel_batches(tools["nagadrive"], "compile", jobs[ndeep:], per_job_timeout=20.0, chunk=32,
                                         workers=vcheck.NCPU))
@@ -152,6 +155,10 @@ def run(ctx):
         if "crash" in r or "panic" in r:
             ncrash += 1
             key = crash_key(r)
+            if tag.startswith("big:") and r.get("crash") in ("timeout", "out_of_memory"):
+                # a hand-made family that exhausts time or memory: where the interrupt lands varies from run to run,
+                # the family does not (deep:swizzle_chain100 -> resource:deep:swizzle_chain)
+                key = "resource:deep:" + re.sub(r"\d+$", "", tag[4:])
             if key in seen_keys:
                 continue          # one report per defect signature (smallest/first input)
             seen_keys.add(key)
